@@ -5,7 +5,7 @@
    the four proposed repairs fixes/C14-writeback-key-lock.diff, C14-list-rmw-key-lock.diff, C14-failed-cache-write-invalidate.diff and
    C14-cache-read-error.diff (true = repaired = Current once applied; false = the code they repair, kept for the `_refuted` witnesses:
    cfg_local / cfg_shared in Proofs/SideC14.v).  A caller's step is ONE tier call or ONE acquisition of the key lock. *)
-From TX Require Import Base.Val Model.Hybrid Model.HybridNodes Proofs.Hybrid Proofs.HybridOne Proofs.HybridLock Proofs.SideC14 Gen.C14 Corr.C14.
+From TX Require Import Base.Val Model.Hybrid Model.HybridNodes Proofs.Hybrid Proofs.HybridOne Proofs.HybridLock Proofs.HybridSeq Proofs.SideC14 Gen.C14 Corr.C14.
 
 (* (1) TIER ROUTING, all keys, all schedules, any number of callers, any tier failures (repaired code):
    every tier call ever made for an operation on key k addresses a tier of k's class — the ONE cache tier
@@ -189,15 +189,20 @@ Theorem C14_read_your_writes_late_writeback_refuted :
 Proof. exact read_your_writes_late_writeback_witness. Qed.
 Print Assumptions C14_read_your_writes_late_writeback_refuted.
 
-(* with prompt write-backs (each lands before the next operation starts): the unbounded statement ... *)
-Definition C14_read_your_writes_sequential_full_statement : Prop :=
+(* non-overlapping operations (each runs to completion before the next starts; Model/Hybrid.v exec_seq), the repaired code, UNBOUNDED: any
+   sequence of Set/Get/Delete/Exists/AppendToList/RemoveFromList/Incr/SetNX on one key (Exists/Incr/SetNX on single-tier keys only: lop_ok),
+   every key class and tier configuration, from every coherent state (warm or cold cache): results and visible value are exactly those of
+   the one-register specification, the state stays coherent, and exec_op never runs out of fuel *)
+Theorem C14_read_your_writes_sequential :
   forall (c : cfg) (k : kbytes) (w : world) (os : list op),
-  fix_incr c = true -> fix_setnx c = true -> coherent GenTables c w k ->
-  Forall (fun o => op_key o = k /\ is_list_op o = false /\ (two_tier GenTables c k = true -> is_cache_only_op o = false)) os ->
+  fix_incr c = true -> fix_setnx c = true -> fix_wb c = true -> fix_list c = true -> exp_locked c = true ->
+  Forall (fun o => lop_ok GenTables c k o /\ not_setexp o) os -> coherent GenTables c w k -> w_locks w k = false ->
   snd (exec_seq GenTables c w os) = snd (spec_seq (visible GenTables c w k) os) /\
   visible GenTables c (fst (exec_seq GenTables c w os)) k = fst (spec_seq (visible GenTables c w k) os) /\
   coherent GenTables c (fst (exec_seq GenTables c w os)) k.
-(* ... is proved only in small scope (single-tier keys are covered unboundedly by C14_no_stale_single_tier_all_schedules):
+Proof. intros c k w os Hi Hn Hw Hl He. exact (seq_refines_spec GenTables c Hi Hn Hw Hl He k os w). Qed.
+Print Assumptions C14_read_your_writes_sequential.
+(* the same for the code WITHOUT the key lock (cfg_local / cfg_shared: write-backs land promptly), small scope:
    every sequence of <= 4 Set/Get/Delete/Exists on a persistent and on a shared+persistent key, local or shared cache,
    from the empty, warm-cache and COLD-cache state, equals the one-register specification and stays coherent *)
 Theorem C14_read_your_writes_sequential_partial :
@@ -234,13 +239,18 @@ Proof. exact sequential_small_scope_lists. Qed.
 Print Assumptions C14_list_updates_sequential_partial.
 
 (* (5) SEVERAL NODES (Model/HybridNodes.v: private local caches over one persistent tier and one optional shared cache; sequential
-   cross-node histories).  Full statement: once any node's Set / Delete of a cross-node-visible key has returned, a node with a cold
-   local cache reads exactly that value / not found. *)
-Definition C14_cross_node_full_statement : Prop :=
+   cross-node histories).  UNBOUNDED: for every multi-node world, every writer node i and every key whose class has a common tier (persistent
+   tier or shared cache), once node i's Set / Delete has returned, a node with a cold local cache reads exactly that value / not found. *)
+Theorem C14_cross_node_cold_reader :
   forall (c : cfg) (k : kbytes) (m : mworld) (i j : nat) (v : value),
-  cross_visible GenTables c k = true -> length (m_locals m) <= j ->
+  fix_incr c = true -> fix_setnx c = true -> fix_wb c = true -> fix_list c = true -> exp_locked c = true ->
+  cross_visible GenTables c k = true -> length (m_locals m) <= j -> coherent GenTables c (node_world m i) k ->
   snd (mexec GenTables c (fst (mexec GenTables c m i (OSet k v))) j (OGet k)) = Some (RVal v) /\
   snd (mexec GenTables c (fst (mexec GenTables c m i (ODel k))) j (OGet k)) = Some RNotFound.
+Proof. intros c k m i j v Hi Hn Hw Hl He. exact (cross_node_cold_reader GenTables c Hi Hn Hw Hl He k m i j v). Qed.
+Print Assumptions C14_cross_node_cold_reader.
+(* (the writer's own view of the key must be coherent: a writer whose private cache still holds a value another node has since replaced is
+   the recorded finding cross-node-stale-local-cache).  Histories with reads from warm nodes, small scope: *)
 (* proved in small scope: along EVERY history of <= 4 steps over {node 0, node 1} x {Set v1, Set v2, Delete, Get} and {cold node} x {Get},
    on a persistent and a shared+persistent key, local or shared cache tier, every Get issued by a cold-cache node, by the latest writer,
    or by any node when the cache tier is the shared cache, returns the latest completed write *)
